@@ -11,6 +11,8 @@ type Expiry struct {
 	Peer      string `json:"peer"`      // live | silent | silent-control | silent-media
 	Role      string `json:"role"`      // play | record
 	Transport string `json:"transport"` // udp | tcp
+	// Tunnel (live peer over tcp): "" | http | ws - the real client runs through the HTTP or WebSocket tunnel
+	Tunnel string `json:"tunnel,omitempty"`
 	IdleMS    int    `json:"idle_ms"`
 	ReadMS    int    `json:"read_ms"`
 	CheckMS   int    `json:"check_ms"`
